@@ -97,9 +97,9 @@ def check_deal(deal: Dict[str, frozenset], c: Counter, tag: str, partial: bool =
         back(Hands.convert_binary(b), 'binary')
     except Exception as e:  # noqa
         c.violate(f'binary-raise:{tag}', f'tuple binary: {type(e).__name__}: {e}', rp)
-    # numpy binary: the default dtype, booleans (the narrowest dtype an indicator fits in), and two more taken in rotation
+    # numpy binary: the default dtype, booleans (the narrowest dtype an indicator fits in), and one more taken in rotation
     _NP_ROT[0] += 1
-    for dt in (np.int32, np.bool_, _NP_MORE[_NP_ROT[0] % len(_NP_MORE)], _NP_MORE[(_NP_ROT[0] // len(_NP_MORE) + 3) % len(_NP_MORE)]):
+    for dt in (np.int32, np.bool_, _NP_MORE[_NP_ROT[0] % len(_NP_MORE)]):
         try:
             nb = h.to_np_binary(dt) if dt is not np.int32 else h.to_np_binary()
             for p, v in nb.items():
@@ -204,6 +204,30 @@ def void_patterns_unit(seed):
             c.inc('evals')
             if adapt.hands_ints(again) != {s: frozenset(deal[s]) for s in SEATS}:
                 c.violate(f'second-decode:{enc}', f'{enc}: the same encoding decoded a second time (after the first result had been played from) gives other hands', {'kind': 'deal', 'deal': {s: sorted(deal[s]) for s in SEATS}})
+        # partial deals: a decoded deal whose unknown hands are then COMPLETED in place (cards added to the empty hands, as a client
+        # does when dummy goes down) must not show in the next partial deal that is decoded
+        pat = (1, 2, 4, 8, 5, 10, 3, 12)[k]
+        part = {s_: (frozenset(deal[s_]) if pat >> i_ & 1 else frozenset()) for i_, s_ in enumerate(SEATS)}
+        other = fill_deal(SEATS[(k + 2) % 4], (k + 1) % 4, 0x0aaa & 0x1fff, rnd)
+        part2 = {s_: (frozenset(other[s_]) if pat >> i_ & 1 else frozenset()) for i_, s_ in enumerate(SEATS)}
+        hp, hp2 = adapt.hands_obj(part), adapt.hands_obj(part2)
+        decs = (('pbn', Hands.convert_pbn, hp.to_pbn(adapt.PL[SEATS[k % 4]]), hp2.to_pbn(adapt.PL[SEATS[(k + 1) % 4]])), ('binary', Hands.convert_binary, hp.to_binary(), hp2.to_binary()),
+                ('np', Hands.convert_np_binary, hp.to_np_binary(), hp2.to_np_binary()), ('json', hands_parser, convert_deal(hp), convert_deal(hp2)))
+        for enc, dec, t1, t2 in decs:
+            try:
+                first = dec(t1)
+                for i_, s_ in enumerate(SEATS):
+                    if not pat >> i_ & 1:
+                        first[adapt.PL[s_]].update(adapt.CARDS[x] for x in deal[s_])
+                for label, txt, want in (('another partial deal', t2, part2), ('the same partial deal', t1, part)):
+                    c.inc('evals')
+                    got = adapt.hands_ints(dec(txt))
+                    if got != {s_: frozenset(want[s_]) for s_ in SEATS}:
+                        c.violate(f'decode-after-completing:{enc}', f'{enc}: after the unknown hands of a decoded partial deal were filled in place, {label} decodes to hands of sizes '
+                                                                    f'{ {s_: len(got[s_]) for s_ in SEATS} }, expected { {s_: len(want[s_]) for s_ in SEATS} }',
+                                  {'kind': 'deal', 'deal': {s_: sorted(part[s_]) for s_ in SEATS}})
+            except Exception as e:  # noqa
+                c.violate(f'decode-after-completing-raise:{enc}', f'{enc}: {type(e).__name__}: {e}', {'kind': 'deal', 'deal': {s_: sorted(part[s_]) for s_ in SEATS}})
         # the same Hands object dealt again in place (13 new cards per seat): encodings must follow
         h6 = adapt.hands_obj(deal)
         check_deal(deal, c, 'history-0', h=h6)
